@@ -658,6 +658,8 @@ Proof.
 Qed.
 
 Ltac in_list := cbn; repeat (first [left; reflexivity | right]).
+(* membership in a generated association table, by computation *)
+Ltac in_table := apply assoc_In; vm_compute; reflexivity.
 
 (* sparse.clip converts its receiver with asCOO and accepts `out` without forwarding it *)
 Lemma wrappers_faithful_refuted_proof :
@@ -706,6 +708,13 @@ Proof.
     by (vm_compute; reflexivity).
   intros cls l name a Hc Hn. rewrite forallb_forall in H. specialize (H _ Hc). cbn in H.
   rewrite forallb_forall in H. exact (H _ Hn).
+Qed.
+
+(* every binary operator method passes its operands in the order Python's protocol prescribes *)
+Lemma operators_operand_order_proof : forall cls, In cls classes -> operand_order_ok tables cls = true.
+Proof.
+  assert (forallb (operand_order_ok tables) classes = true) as H by (vm_compute; reflexivity).
+  intros cls Hc. rewrite forallb_forall in H. exact (H cls Hc).
 Qed.
 
 (* ------------------------------------------------------------------ resolve *)
@@ -767,7 +776,7 @@ Lemma spellings_two_algorithms_refuted_proof :
     resolve tables false FUEL cls s1 = LfBody "COO" "isnan" /\ resolve tables false FUEL cls s2 = LfElemwise "isnan".
 Proof.
   exists "COO", "isnan". eexists. exists (Method "isnan"), (Ufunc "isnan" "__call__").
-  split; [in_list|]. split; [in_list|]. split; [in_list|]. split; [in_list|].
+  split; [in_list|]. split; [in_table|]. split; [in_list|]. split; [in_list|].
   split; [vm_compute; reflexivity|]. split; vm_compute; reflexivity.
 Qed.
 
@@ -776,7 +785,7 @@ Lemma spellings_stub_refuted_proof :
     resolve tables false FUEL "DOK" s1 = LfStub "isnan" /\ resolve tables false FUEL "DOK" s2 = LfElemwise "isnan".
 Proof.
   exists "isnan". eexists. exists (Method "isnan"), (Ufunc "isnan" "__call__").
-  split; [in_list|]. split; [in_list|]. split; [in_list|]. split; vm_compute; reflexivity.
+  split; [in_table|]. split; [in_list|]. split; [in_list|]. split; vm_compute; reflexivity.
 Qed.
 
 Lemma spellings_coerced_refuted_proof :
@@ -785,7 +794,7 @@ Lemma spellings_coerced_refuted_proof :
     resolve tables false FUEL "GCXS" s2 = LfCoerced (LfElemwise "clip").
 Proof.
   exists "clip". eexists. exists (Method "clip"), (Namespace "clip").
-  split; [in_list|]. split; [in_list|]. split; [in_list|]. split; vm_compute; reflexivity.
+  split; [in_table|]. split; [in_list|]. split; [in_list|]. split; vm_compute; reflexivity.
 Qed.
 
 (* an operation a class does not support at all fails with different exception classes *)
@@ -794,7 +803,7 @@ Lemma unsupported_exception_class_refuted_proof :
     resolve tables false FUEL "DOK" s1 = LfAttributeError /\ resolve tables false FUEL "DOK" s2 = LfTypeError.
 Proof.
   exists "permute_dims". eexists. exists (Method "transpose"), (NumpyFunction "transpose" true).
-  split; [in_list|]. split; [in_list|]. split; [in_list|]. split; vm_compute; reflexivity.
+  split; [in_table|]. split; [in_list|]. split; [in_list|]. split; vm_compute; reflexivity.
 Qed.
 
 Example spellings_agree_example :
@@ -804,7 +813,7 @@ Example spellings_agree_example :
   resolve tables false FUEL "COO" (Operator "add" SideR) = LfElemwise "add" /\
   resolve tables false FUEL "DOK" (Operator "matmul" SideL) = LfFunc "matmul" /\
   resolve tables false FUEL "COO" (Operator "matmul" SideR) = LfFunc "matmul".
-Proof. split; [in_list|]. repeat split; vm_compute; reflexivity. Qed.
+Proof. split; [in_table|]. repeat split; vm_compute; reflexivity. Qed.
 
 (* ---------------- a NumPy function the library does not implement *)
 
@@ -818,12 +827,8 @@ Proof.
   intros T ad fuel cls n name subs unary Haf Hn Hns Hat Hin.
   cbn [resolve]. rewrite Hn, Haf.
   destruct subs as [|s0 subs].
-  - rewrite (Hns eq_refl). Show. rewrite Hat. cbn [andb]. destruct unary.
-    + cbn [resolve]. rewrite Hat, Hin. reflexivity.
-    + reflexivity.
-  - rewrite Hat. cbn [andb]. destruct unary.
-    + cbn [resolve]. rewrite Hat, Hin. reflexivity.
-    + reflexivity.
+  - rewrite (Hns eq_refl), Hat. cbn [andb]. destruct unary; [rewrite Hin|]; reflexivity.
+  - rewrite Hat. cbn [andb]. destruct unary; [rewrite Hin|]; reflexivity.
 Qed.
 
 Lemma unimplemented_raises_proof : forall cls n name subs unary,
@@ -832,7 +837,7 @@ Lemma unimplemented_raises_proof : forall cls n name subs unary,
   attr_lookup tables cls name = None -> inst_has tables cls name = false ->
   resolve tables false FUEL cls (NumpyFunction n unary) = LfTypeError.
 Proof.
-  intros. unfold FUEL. eapply unimplemented_raises_gen; eauto. reflexivity.
+  intros. unfold FUEL. eapply unimplemented_raises_gen; eauto.
 Qed.
 
 Example unimplemented_raises_example :
@@ -842,17 +847,27 @@ Example unimplemented_raises_example :
 Proof. repeat split; vm_compute; reflexivity. Qed.
 
 (* ufunc methods other than __call__, reduce, outer are declined *)
+Lemma ufunc_method_unhandled_gen : forall T ad fuel cls u name m,
+  assoc u (t_numpy T) = Some (NpUfunc name false) ->
+  au_branches (t_au T) = [("__call__", AuElemwise); ("reduce", AuReduce)] ->
+  au_default_notimplemented (t_au T) = true ->
+  m <> "__call__" -> m <> "reduce" -> m <> "outer" ->
+  resolve T ad (S fuel) cls (Ufunc u m) = LfTypeError.
+Proof.
+  intros T ad fuel cls u name m Hu Hb Hd H1 H2 H3.
+  cbn [resolve]. rewrite Hu. unfold au_dispatch. rewrite Hb, Hd.
+  destruct (String.eqb_spec m "outer"); [contradiction|].
+  cbn [assoc]. destruct (String.eqb_spec m "__call__"); [contradiction|].
+  destruct (String.eqb_spec m "reduce"); [contradiction|]. reflexivity.
+Qed.
+
 Lemma ufunc_method_unhandled_raises_proof : forall cls u name m,
   assoc u numpy_names = Some (NpUfunc name false) ->
   m <> "__call__" -> m <> "reduce" -> m <> "outer" ->
   resolve tables false FUEL cls (Ufunc u m) = LfTypeError.
 Proof.
-  intros cls u name m Hu H1 H2 H3. unfold FUEL. cbn [resolve].
-  change (t_numpy tables) with numpy_names. rewrite Hu.
-  unfold au_dispatch. change (t_au tables) with au_facts.
-  destruct (String.eqb_spec m "outer"); [contradiction|].
-  cbn. destruct (String.eqb_spec m "__call__"); [contradiction|].
-  destruct (String.eqb_spec m "reduce"); [contradiction|]. reflexivity.
+  intros cls u name m Hu H1 H2 H3. unfold FUEL.
+  apply (ufunc_method_unhandled_gen tables false _ cls u name m); try assumption; reflexivity.
 Qed.
 
 (* the non-dispatched route into __array__ raises while SPARSE_AUTO_DENSIFY is unset *)
@@ -881,4 +896,52 @@ Proof.
   rewrite forallb_forall in T. specialize (T cls Hc). rewrite forallb_forall in T. specialize (T _ Hn).
   cbn [fst] in T. repeat rewrite andb_true_iff in T. destruct T as [[T1 T2] _].
   destruct unary; [apply negb_true_iff in T1; exact T1 | apply negb_true_iff in T2; exact T2].
+Qed.
+
+(* for EVERY spelling (any name, any ufunc method, any operator), with the guard of __array__ in place and
+   SPARSE_AUTO_DENSIFY unset, the dispatch never ends in a densification *)
+Lemma au_dispatch_nd : forall T u m, has_densify (au_dispatch T u m) = false.
+Proof.
+  intros. unfold au_dispatch.
+  destruct (assoc _ (au_branches (t_au T))) as [[|]|]; try reflexivity.
+  - destruct (String.eqb m "outer"); reflexivity.
+  - destruct (au_default_notimplemented (t_au T)); reflexivity.
+Qed.
+
+Ltac nd_step IH :=
+  repeat (first [ reflexivity | apply IH | apply au_dispatch_nd
+                | match goal with |- context [match ?x with _ => _ end] => destruct x end ]).
+
+Lemma resolve_never_densifies_proof : forall T, t_array_guard T = true ->
+  forall fuel cls s, has_densify (resolve T false fuel cls s) = false.
+Proof.
+  intros T Hg. induction fuel as [|fuel IH]; intros cls s; [reflexivity|].
+  destruct s; cbn [resolve].
+  - nd_step IH.
+  - nd_step IH.
+  - destruct (assoc n (t_namespace T)) as [e|]; [|reflexivity].
+    destruct e; try reflexivity; try apply IH.
+    destruct (w_coerce w).
+    + destruct (String.eqb cls "COO"); [|cbn [has_densify]]; destruct (w_target w); apply IH.
+    + destruct (w_target w); apply IH.
+  - destruct (String.eqb (t_array_namespace T) "sparse"); [apply IH | reflexivity].
+  - destruct (assoc n (t_numpy T)) as [k|]; [|reflexivity].
+    destruct k; try reflexivity; try apply IH.
+    generalize FoundNothing. generalize (t_af T) as steps.
+    induction steps as [|st steps IHs]; intros found; [reflexivity|].
+    destruct st.
+    + destruct submodules; [|apply IHs]. destruct (assoc name (t_namespace T)); [apply IH | apply IHs].
+    + apply IHs.
+    + match goal with |- context [if ?c then _ else _] => destruct c end; [|apply IHs].
+      pose proof (IH cls (Attr name)) as HA.
+      destruct (resolve T false fuel cls (Attr name)); try exact HA; try reflexivity. apply IHs.
+    + destruct found; [reflexivity | apply IHs].
+    + destruct found as [|a]; [reflexivity|]. destruct a as [d sg b|d b|d]; try reflexivity. nd_step IH.
+  - destruct (assoc u (t_numpy T)) as [k|]; [|apply au_dispatch_nd].
+    destruct k; try apply au_dispatch_nd.
+    destruct gufunc; [|apply au_dispatch_nd].
+    destruct (au_gufunc_to_function (t_au T)); [|apply au_dispatch_nd].
+    destruct (assoc name (t_namespace T)); [apply IH|]. nd_step IH.
+  - apply IH.
+  - rewrite Hg. reflexivity.
 Qed.
